@@ -5,11 +5,11 @@
    GetOrAllocate / ReleaseBlocks / RestoreMapping / RestoreMappingIfAbsent calls.  An allocation op may carry the
    block somebody else chose ([Some b]): it is granted only if admissible, so the theorems cover every allocation
    policy, the current first-free one included ([None]).  [blocks_of p k] are the blocks subscriber k holds.
-   Variant [repaired] = /repo HEAD: all nine fixes/C15_*.patch are committed (285c7b2 restore validation, 7d1d0b3
+   Variant [repaired] = /repo HEAD: all ten fixes/C15_*.patch are committed (285c7b2 restore validation, 7d1d0b3
    reverse Add replace, 3b1c45d outside-address dedup, 0cedd79 HA-synced rollback, 53e73c2 inside-VRF key, 1fd8c60
    cross-pool overlap rejected, 8d8ac1d late add completion reconciled, 0e7517a port geometry validated, 2953f22
-   release frees a mapping preserved by the degraded restore).  One finding is open: the restore-window queue drops
-   releases past its bound (C15_queue_drop_refuted; modelled by the [vq] argument of [estep], vq = false is HEAD).  The [_refuted]
+   release frees a mapping preserved by the degraded restore, f92bf5a the restore-window queue keeps releases; the last
+   one is the [vq] argument of [estep], vq = true is HEAD).  No C15 finding is open.  The [_refuted]
    theorems below are historical witnesses against the code before the named commit; [defective] = before all of
    them.
    [wf_range r]: port-range start <= end <= 65535 (not checked by cgnat.Config.Validate; listed as an assumption). *)
@@ -243,7 +243,7 @@ Theorem C15_event_level_pool_properties :
 Proof. exact event_level_pool_props. Qed.
 Print Assumptions C15_event_level_pool_properties.
 
-(* a release delivered in the restore window is queued whatever the length of the queue (and is then dispatched by
+(* (f92bf5a) a release delivered in the restore window is queued whatever the length of the queue (and is then dispatched by
    drainQueue like any queued event: [estep] of [EvDrain]) *)
 Theorem C15_release_event_never_dropped :
   forall v c s e obs, is_release e = true -> e_drained s = false ->
@@ -402,20 +402,21 @@ Theorem C15_degraded_leak_refuted :
 Proof. vm_compute. split; reflexivity. Qed.
 Print Assumptions C15_degraded_leak_refuted.
 
-(* ---- open finding: the restore-window queue drops releases past its bound (vq = false is /repo HEAD) ---- *)
+(* ---- witness against the code before f92bf5a: the restore-window queue dropped releases past its bound
+   (vq = false; fixed) ---- *)
 (* Session 3's mapping is restored, 4096 events fill the queue, session 3's release is dropped, drainQueue runs:
    subscriber 4 keeps the block and session 3 stays recorded; with the repair the same stream frees both. *)
 Definition junk_events : list eop := repeat (EvDeliver (ELifecycle SActive AIPoE 0 0 []) None) 4096.
 Definition overflow_stream : list eop :=
   EvDirect (CRestorePresent 3 4 {| b_ip := 1681915905; b_start := 1024; b_end := 1039 |} 0 None)
   :: junk_events ++ [EvDeliver (ELifecycle SReleased AIPoE 3 4 []) None; EvDrain []].
-Theorem C15_queue_drop_refuted :
+Theorem C15_queue_drop_refuted_before_f92bf5a :
   (let s := erun false repaired (effective ex_raw1) (ecomp_init (pool_of repaired ex_raw1)) overflow_stream in
    blocks_of (cp_pool (e_comp s)) 4 <> [] /\ cp_sess (e_comp s) = [3] /\ e_dropped s = 1) /\
   (let s := erun true repaired (effective ex_raw1) (ecomp_init (pool_of repaired ex_raw1)) overflow_stream in
    blocks_of (cp_pool (e_comp s)) 4 = [] /\ cp_sess (e_comp s) = [] /\ e_dropped s = 0).
 Proof. vm_compute. repeat split; discriminate. Qed.
-Print Assumptions C15_queue_drop_refuted.
+Print Assumptions C15_queue_drop_refuted_before_f92bf5a.
 
 (* non-vacuity of the hypotheses: the same geometry, a history with allocations by two subscribers, a release, a
    valid restore and a refused (unaligned) restore, run on the repaired model *)
